@@ -421,6 +421,23 @@ class StoredBinLeg(object):
             if fid not in hit:
                 return Failure("region(chr1:%d-%d, completely_within=True) does not return %s stored exactly there" % (s_, e_, fid),
                                sig={"kind": "stored-bin-query"})
+        # a Feature used as the query region after it was widened in place
+        lo = min(s_ for s_, e_ in finals)
+        hi = max(e_ for s_, e_ in finals)
+        if hi < MAXC:
+            rf = Feature(seqid="chr1", start=lo, end=lo, strand="+")
+            rf.end = hi
+            got_rf = set(x.id for x in db.region(rf, completely_within=True))
+            want_rf = set("f%d" % i for i in range(len(finals)))
+            if not want_rf <= got_rf:
+                return Failure("region(<Feature widened in place to %d..%d>, completely_within=True) misses %r" % (lo, hi, sorted(want_rf - got_rf)),
+                               sig={"kind": "stored-bin-query"})
+        # features yielded by interfeatures() carry the bin of their own coordinates
+        ordered = sorted(db.all_features(), key=lambda x: (x.start, x.end))
+        for g_ in db.interfeatures(ordered):
+            if in_range(g_.start, g_.end, "gff") and g_.bin != bins(g_.start, g_.end):
+                return Failure("interfeatures yields %d..%d with bin %r, bins() gives %r" % (g_.start, g_.end, g_.bin, bins(g_.start, g_.end)),
+                               sig={"kind": "feature-bin"})
         # a query wide enough to overlap >= 900 bins, through limit= and through region()
         wide_hi = min(MAXC - 1, max(e_ for s_, e_ in finals) + (1 << 27))
         want_wide = set("f%d" % i for i, (s_, e_) in enumerate(finals) if e_ <= wide_hi)
